@@ -239,7 +239,7 @@ func c09Run(s *Shard) {
 	if quick(s) {
 		pairCorpus = nil
 		for i, r := range all {
-			if i%3 == 0 || !r.Valid {
+			if i%3 == 0 || !r.Valid || r.Always {
 				pairCorpus = append(pairCorpus, r)
 			}
 		}
